@@ -2,6 +2,8 @@ package world
 
 import (
 	"fmt"
+	"sort"
+	"strings"
 	"time"
 
 	"simlens/plan"
@@ -11,6 +13,7 @@ import (
 	"github.com/siglens/siglens/pkg/config"
 	eswriter "github.com/siglens/siglens/pkg/es/writer"
 	"github.com/siglens/siglens/pkg/retention"
+	segmetadata "github.com/siglens/siglens/pkg/segment/metadata"
 	"github.com/siglens/siglens/pkg/segment/query"
 	vtable "github.com/siglens/siglens/pkg/virtualtable"
 	"github.com/valyala/fasthttp"
@@ -66,7 +69,30 @@ func retentionOp(op *plan.Op) (interface{}, error) {
 		hours = int(h)
 	}
 	retention.DoRetentionBasedDeletion(config.GetCurrentNodeIngestDir(), hours, op.Org)
-	return nil, nil
+	// the three in-memory views of the rotated segments (global list, reverse index, per-index list read by the
+	// query path) after the pass: sorted segment keys relative to the data directory
+	rel := func(k string) string {
+		if i := strings.Index(k, "/final/"); i >= 0 {
+			return k[i+1:]
+		}
+		return k
+	}
+	var global, rev, table []string
+	for _, smi := range segmetadata.GetAllSegmentMicroIndexForTest() {
+		global = append(global, rel(smi.SegmentKey))
+	}
+	for k := range segmetadata.GetSegmentMetadataReverseIndexForTest() {
+		rev = append(rev, rel(k))
+	}
+	for _, l := range segmetadata.GetTableSortedMetadata() {
+		for _, smi := range l {
+			table = append(table, rel(smi.SegmentKey))
+		}
+	}
+	sort.Strings(global)
+	sort.Strings(rev)
+	sort.Strings(table)
+	return map[string]interface{}{"mem_global": global, "mem_reverse": rev, "mem_per_index": table}, nil
 }
 
 func init() {
